@@ -145,6 +145,7 @@ func (e *mvccEngine) cur(it *nitro.Iterator) string {
 }
 
 var nodeCountRe = regexp.MustCompile(`"node_count":\s+(-?\d+)`)
+var memUsedRe = regexp.MustCompile(`"memory_used":\s+(-?\d+)`)
 
 // walk counts the unmarked and marked nodes reachable at level 0.
 func (e *mvccEngine) walk() (live, marked int) {
@@ -463,6 +464,21 @@ func (e *mvccEngine) step(toks []string) string {
 		nodes := fmt.Sprint(live)
 		if stat != live || marked != 0 {
 			nodes = fmt.Sprintf("%d/stat=%d/marked=%d", live, stat, marked)
+		}
+		// memory in use of the store must equal what the walk measures (items + nodes of the linked versions)
+		var walked int64
+		st := e.db.VerifStore()
+		for n, _ := skiplist.VerifNext(st.HeadNode(), 0); n != nil && n != st.TailNode(); {
+			next, del := skiplist.VerifNext(n, 0)
+			if !del {
+				walked += int64(st.Size(n))
+			}
+			n = next
+		}
+		if m := memUsedRe.FindStringSubmatch(e.db.DumpStats()); m != nil {
+			if used, _ := strconv.ParseInt(m[1], 10, 64); used != walked {
+				nodes += fmt.Sprintf("/mem=%d/walk=%d", used, walked)
+			}
 		}
 		return fmt.Sprintf("nodes=%s lastgc=%d snaps=%d", nodes, e.db.GetLastGCSn(), len(e.db.GetSnapshots()))
 	case "store", "image", "loadimg", "load", "storeload", "crashload", "manifest", "laststeps":
